@@ -52,6 +52,28 @@ def build_case(rng, case, ncopies=None):
     # give the structure non-trivial labels / masses so that "keeps its label and mass" is observable
     S.atom_type_labels = ["L%d_%s" % (i, e) for i, e in enumerate(S.atom_type_elements)]
     rep = replcase.make_replacement(rng, pat, case["repl"])
+    if case["s"] % 3 == 1 and not minimal:
+        # bystanders stored a little outside the box, or exactly on a far face (a file written by a program that does not wrap:
+        # fractional coordinates of -0.003, 1.0, 1.02): the same crystal; they are no part of any match and keep their place
+        cell = np.array(S.cell, float)
+        special = set(i for g in built["planted"] for i in g) | set(int(i) for _, g in built["decoy_groups"] for i in g)
+        r2 = np.random.default_rng(case["s"] + 5)
+        moved = 0
+        for i in r2.permutation(len(S)):
+            i = int(i)
+            if i in special or moved >= 3:
+                continue
+            f = np.linalg.solve(cell.T, np.asarray(S.positions[i], float))
+            k = int(r2.integers(3))
+            delta = float(r2.uniform(0.02, 0.4)) / np.linalg.norm(cell[k])
+            f[k] = [-delta, 1.0 + delta, 1.0][int(r2.integers(3))]
+            p_new = f.dot(cell)
+            others = np.delete(np.asarray(S.positions, float), i, axis=0)
+            if planted.min_image_dist(cell, p_new, others) < 1.3:
+                continue
+            S.positions[i] = p_new
+            moved += 1
+        case["_outside"] = moved
     return pat, rep, built, S
 
 
@@ -242,6 +264,8 @@ def run_case(case, ctx):
     st.count("matches_replaced", len(sel))
     st.seen("repl_kind", rep["kind"])
     st.seen("fraction_class", "0" if f == 0 else "1" if f >= 1 else "mid")
+    if case.get("_outside") and len(inserted):
+        st.count("replacements_that_insert_atoms_into_structures_with_bystanders_stored_outside_the_cell")
     st.seen("replace_all", case["replace_all"])
     st.seen("sample_schedule", case["sample"] if f < 1 else "n/a")
     st.seen("cell_class", case["cell"])
@@ -272,6 +296,8 @@ def requirements(stats, tier):
         need.append("too few replacements judged: %d" % stats.get("replacements_judged"))
     if stats.nseen("repl_kind") < len(replcase.REPL_KINDS) - 1:
         need.append("replacement kinds observed: %s" % sorted(stats.sets.get("repl_kind", [])))
+    if stats.get("replacements_that_insert_atoms_into_structures_with_bystanders_stored_outside_the_cell") < (40 if tier == "quick" else 3000):
+        need.append("replacements that insert atoms into structures with bystanders stored outside the cell: %d" % stats.get("replacements_that_insert_atoms_into_structures_with_bystanders_stored_outside_the_cell"))
     if stats.nseen("fraction_class") < 3 or stats.nseen("replace_all") < 2:
         need.append("fractions / replace_all not covered")
     for s in ("first", "last", "real"):
